@@ -100,19 +100,42 @@ func Explore(bound, shard, nshards, maxExec int, body func(x *Exec), visit func(
 	}
 	root := run(nil)
 	var stack []item
-	idx := 0
-	expand(root, 0, 0, func(it item) {
-		if idx%nshards == shard {
-			stack = append(stack, it)
-		}
-		idx++
-	})
 	if shard == 0 {
 		st.Executions++
 		st.Points += len(root.Points)
 		st.MaxPoints = len(root.Points)
 		if !visit(root) {
 			return st
+		}
+	}
+	if nshards <= 1 {
+		expand(root, 0, 0, func(it item) { stack = append(stack, it) })
+	} else {
+		// Work is handed out at level 2: the executions of level 1 (one deviation from the root) are
+		// run by every shard (silently, except on shard 0) to learn their choice points, and their
+		// alternatives are dealt round-robin. Level-1 subtrees can be very uneven (a free choice at
+		// the very first point mirrors the whole tree), level-2 subtrees are not.
+		var level1 []item
+		expand(root, 0, 0, func(it item) { level1 = append(level1, it) })
+		idx := 0
+		for _, it := range level1 {
+			x := run(it.prefix)
+			if shard == 0 {
+				st.Executions++
+				st.Points += len(x.Points)
+				if len(x.Points) > st.MaxPoints {
+					st.MaxPoints = len(x.Points)
+				}
+				if !visit(x) {
+					return st
+				}
+			}
+			expand(x, len(it.prefix), it.cost, func(n item) {
+				if idx%nshards == shard {
+					stack = append(stack, n)
+				}
+				idx++
+			})
 		}
 	}
 	for len(stack) > 0 {
